@@ -213,13 +213,12 @@ func c05Root(b []byte, root string, needJoin bool) []byte {
 	return b
 }
 
-// c05LabelsV4 appends k labels of 1..maxw arbitrary ASCII bytes joined by dots.
+// c05LabelsV4 appends k labels joined by dots: one of them 1..maxw arbitrary
+// ASCII bytes wide, the others one arbitrary ASCII byte.
 func c05LabelsV4(b []byte, k, maxw int) []byte {
-	wide := -1
-	if !verifrt.Thorough() {
-		// quick: one label (any position) of width 1..maxw, the others one byte
-		wide = verifrt.Choice(k + 1)
-	}
+	// one label (any position) of width 1..maxw, the others one byte (every
+	// label wide at once does not finish within the thorough budget)
+	wide := verifrt.Choice(k + 1)
 	for i := 0; i < k; i++ {
 		if i > 0 {
 			b = append(b, '.')
@@ -258,11 +257,7 @@ func c05V4Name() string {
 }
 
 // c05V6Name: k single-byte labels (one of them may be 2..3 bytes wide).
-func c05V6Name() string {
-	maxk := 8
-	if verifrt.Thorough() {
-		maxk = 34
-	}
+func c05V6Name(maxk int) string {
 	k := verifrt.Len(maxk)
 	wide := verifrt.Choice(k+1) - 1
 	var b []byte
@@ -298,7 +293,11 @@ func VerifC05PrefixV4() {
 
 // VerifC05PrefixV6: PrefixFromReversedAddr on ip6.arpa label sequences.
 func VerifC05PrefixV6() {
-	s := c05V6Name()
+	maxk := 8
+	if verifrt.Thorough() {
+		maxk = 34
+	}
+	s := c05V6Name(maxk)
 	p, err := PrefixFromReversedAddr(s)
 	c05Compare(p, err, c05RefPrefix(c05TrimDot(s)), "PrefixFromReversedAddr")
 }
@@ -346,7 +345,12 @@ func VerifC05ExtractV4() {
 
 // VerifC05ExtractV6: ExtractReversedAddr on names with leading labels.
 func VerifC05ExtractV6() {
-	s := string(c05Lead()) + c05V6Name()
+	// (the lengths around a full address are VerifC05ExtractV6Full's)
+	maxk := 8
+	if verifrt.Thorough() {
+		maxk = 12
+	}
+	s := string(c05Lead()) + c05V6Name(maxk)
 	p, err := ExtractReversedAddr(s)
 	c05Compare(p, err, c05RefExtract(s), "ExtractReversedAddr")
 }
